@@ -20,6 +20,11 @@
    announce-triggered syncs (a typical slip: TLC finds the send on a closed channel).
    FIXED = FALSE is the pinned doClose, which does not wait for the distributor.
 
+   NESTED     explicit sync 1 starts explicit sync 2 (of another publisher) from inside its block hook and waits for it there
+              (an application that reacts to an advertisement by syncing something else).  EXPMU = "released" is the code:
+              expSyncMutex protects only the flag and the WaitGroup's Add; EXPMU = "held" keeps it locked for the rest of
+              doClose (a deferred Unlock): the nested call then waits for a mutex whose holder waits for the outer sync --
+              TLC reports the deadlock.
    R r        a listener registration (OnSyncFinished): select { hand the channel to the distributor | distDone: return
               a closed channel }.  REGSEL = "closing" is a plausible slip (falling back on the closing channel, which is
               closed at the START of doClose): a registration is then refused while notifications are still delivered.  *)
@@ -27,7 +32,9 @@ EXTENDS Integers, Sequences, FiniteSets, TLC
 
 CONSTANTS Closers, NG, NE, FIXED, ORDER,
           NR,        \* listener registrations attempted at arbitrary moments
-          REGSEL     \* "distDone" (the code) | "closing"
+          REGSEL,    \* "distDone" (the code) | "closing"
+          NESTED,    \* explicit sync 2 is called from the block hook of explicit sync 1
+          EXPMU      \* "released" (the code) | "held"
 Gs == 1..NG
 Es == 1..NE
 Rs == 1..NR
@@ -86,10 +93,18 @@ GStart(g) == /\ gpc[g] = "start"
 GSend(g) == /\ gpc[g] = "synced" /\ Send /\ gpc' = [gpc EXCEPT ![g] = "done"] /\ asyncWG' = asyncWG - 1
             /\ U(<<cpc, first, closing, expClosed, expWG, rcvClosed, watchDone, inClosed, distDone, cancelled, wpc, spawned, epc, dpc, hooks, forwards, listenersClosed, closeReturned>>)
 
-EStart(e) == /\ epc[e] = "idle"
+(* expSyncMutex: taken by doClose at c2; released there (the code) or only when doClose ends (EXPMU = "held") *)
+ExpMuHeld == EXPMU = "held" /\ first # 0 /\ cpc[first] \in {"c3", "c4", "c5", "c6", "c7", "c8", "ret"}
+EStart(e) == /\ epc[e] = "idle" /\ ~ExpMuHeld
+             /\ (NESTED /\ e = 2) => epc[1] = "hook"               \* called from the block hook of sync 1
              /\ IF expClosed THEN epc' = [epc EXCEPT ![e] = "refused"] /\ UNCHANGED <<expWG, hooks>>
-                ELSE epc' = [epc EXCEPT ![e] = "synced"] /\ expWG' = expWG + 1 /\ hooks' = hooks + 1
+                ELSE epc' = [epc EXCEPT ![e] = "hook"] /\ expWG' = expWG + 1 /\ hooks' = hooks + 1
              /\ U(<<cpc, first, closing, expClosed, rcvClosed, watchDone, asyncWG, inEvents, inClosed, distDone, cancelled, wpc, spawned, gpc, dpc, forwards, listenersClosed, closeReturned, panic>>)
+(* the block hook returns: with NESTED, sync 1's hook has waited for the call it made *)
+EHook(e) == /\ epc[e] = "hook"
+            /\ (NESTED /\ e = 1 /\ NE >= 2) => epc[2] \in {"refused", "done"}
+            /\ epc' = [epc EXCEPT ![e] = "synced"]
+            /\ U(<<cpc, first, closing, expClosed, expWG, rcvClosed, watchDone, asyncWG, inEvents, inClosed, distDone, cancelled, wpc, spawned, gpc, dpc, hooks, forwards, listenersClosed, closeReturned, panic>>)
 ESend(e) == /\ epc[e] = "synced" /\ Send /\ epc' = [epc EXCEPT ![e] = "done"] /\ expWG' = expWG - 1
             /\ U(<<cpc, first, closing, expClosed, rcvClosed, watchDone, asyncWG, inClosed, distDone, cancelled, wpc, spawned, gpc, dpc, hooks, forwards, listenersClosed, closeReturned>>)
 
@@ -108,12 +123,13 @@ RRefuse(r) == /\ rpc[r] = "wait" /\ (IF REGSEL = "distDone" THEN distDone ELSE c
 
 AllDone == /\ \A c \in Closers : cpc[c] = "done" /\ wpc = "done" /\ dpc = "done"
            /\ \A r \in Rs : rpc[r] \in {"added", "refused", "refused-early"}
-           /\ \A g \in Gs : gpc[g] \in {"unborn", "done"} /\ \A e \in Es : epc[e] \in {"refused", "done"}
+           /\ \A g \in Gs : gpc[g] \in {"unborn", "done"}
+           /\ \A e \in Es : epc[e] \in {"refused", "done"} \/ (NESTED /\ e = 2 /\ epc[e] = "idle")      \* sync 1 never got to its hook
 Finished == AllDone /\ UNCHANGED vars
 
 Next == \/ \E c \in Closers : CEnter(c) \/ CWait(c) \/ CStep(c)
         \/ WSpawn \/ WExit \/ \E g \in Gs : GStart(g) \/ GSend(g)
-        \/ \E e \in Es : EStart(e) \/ ESend(e)
+        \/ \E e \in Es : EStart(e) \/ EHook(e) \/ ESend(e)
         \/ DForward \/ DExit \/ Finished
         \/ \E r \in Rs : RStart(r) \/ RAdd(r) \/ RRefuse(r)
 Spec == Init /\ [][Next]_vars
